@@ -40,12 +40,13 @@ package dnsserver
 //@ extern github.com/coredns/coredns/request Request.SizeAndDo
 //@ updates mut
 //@ modifies m
-//@ ensures mut == old(mut) + 1 && m.Rcode == old(m.Rcode) && m.Authoritative == old(m.Authoritative) && m.Id == old(m.Id)
+//@ ensures mut == old(mut) + 1 && m.Rcode == old(m.Rcode) && m.Authoritative == old(m.Authoritative) && m.Id == old(m.Id) && m.Response == old(m.Response) && m.Answer == old(m.Answer)
 
 //@ extern github.com/coredns/coredns/request Request.Scrub
 //@ updates mut
 //@ modifies reply
-//@ ensures mut == old(mut) + 1 && reply.Rcode == old(reply.Rcode) && reply.Authoritative == old(reply.Authoritative) && reply.Id == old(reply.Id) && len(reply.Answer) <= old(len(reply.Answer))
+//@ ensures mut == old(mut) + 1 && reply.Rcode == old(reply.Rcode) && reply.Authoritative == old(reply.Authoritative) && reply.Id == old(reply.Id) && reply.Response == old(reply.Response) && len(reply.Answer) <= old(len(reply.Answer))
+//@ ensures result == reply
 
 // ---- writeAndLog (C19): what is counted and logged is exactly what was sent ----------------------------
 //@ func FBDNSDB.writeAndLog
